@@ -589,8 +589,10 @@ def explore_step(prog, d, tables, N, start, *, partial=False, props=None, is_rel
         else:
             kind, msg, model = leaf[1]
             a.count('kinds', 'ub:' + kind)
-            prop = {'oob': 'C05', 'get_unchecked': ('C04', 'C05') if is_str else 'C05', 'steps': 'C03',
+            prop = {'oob': 'C05', 'get_unchecked': ('C04', 'C05') if is_str else 'C05', 'steps': ('C03', 'C20', 'C13') if 'cb' in d.tags else ('C03', 'C20'),
                     'unreachable': 'C05', 'assume': 'C05'}.get(kind, 'C05')
+            if kind == 'steps':
+                msg = f'next() does not return within its step budget ({ex.call_step_limit} MIR blocks for <= {ex.N} bytes): ' + msg
             res.fail(ex, prop, msg, model=model)
 
     ex.explore(body, on_leaf)
